@@ -24,8 +24,8 @@ CLAIMS = {
             "Lean 4 theorem (graph invariant preserved by each pass) + model/code correspondence + concrete-execution oracle"),
     "C11": ("proof", "Theorem mark_reachable_owner / markLoop_own: every instruction the markup walk records for a function carries that function as owner, indices and edges stay in range, across the in-walk rewiring of additional returns. 'function iff called', 'body = reachable set' (independent DFS), owner consistency and single exit are checked on the real finished graph; stages diffed against the Lean model.", "5 C11",
             "Lean 4 theorem (DFS invariant with mutation) + model/code correspondence + reachability oracle"),
-    "C02": ("proof", "Theorems liveNode_stable (a node update that reports no change satisfies the five-case liveness equations) and live_path_sound (in any solution of the equations a register read at the end of a path of ordinary instructions and not overwritten before is live at its start). Minimality and dynamic coverage are checked on the real code: an independent least-fixed-point solver of the documented equations must reproduce the real live sets exactly, and every register read in concrete executions must be live since its defining write.", "5 C02",
-            "Lean 4 theorem (equations from stability, path induction) + model/code correspondence + reference solver + concrete execution"),
+    "C02": ("proof", "Theorems liveness_least_solution = liveness_fixpoint + liveness_least: for every graph, a run of the liveness pass that ends because a sweep changes nothing returns facts that satisfy the five-case liveness equations at every node (liveNode_stable, liveNode_noop, liveSweep_quiet) AND are contained in every assignment closed under those rules (liveNode_below, liveSweep_below, liveLoop_below) - the least solution, for any number of sweeps and any visiting history; preSol_top shows the hypothesis is satisfiable. live_path_sound: in any solution a register read at the end of a path of ordinary instructions and not overwritten before is live at its start. On the real code: an independent least-fixed-point solver must reproduce the real live sets exactly, and every register read in concrete executions must be live since its defining write; facts diffed against the Lean model. Termination of the pass is not proved (F-12).", "5 C02",
+            "Lean 4 theorem (fixed point + leastness by induction over sweeps, path induction) + model/code correspondence + reference solver + concrete execution"),
     "C01": ("proof", "Theorems meetOver_sound, erase_sound, fold_const_sound, fold_imm_sound, fold_ors_sound, fold_ors_right_sound (all four arms of the folding rule are sound against RV32IM for all operand values, via operate_rv32; meets and kills preserve soundness). The memory rules and the trace induction are NOT proved (partial); they are covered by a concrete-execution oracle that evaluates every constant/address/entry-relative claim of the real analyzer on executions from random states, and by the diff against the Lean model.", "5 C01",
             "Lean 4 theorem (per-rule soundness, partial) + model/code correspondence + concrete-execution oracle"),
     "C12": ("proof", "Theorems ecallStep_idem, ecallStep_facts, cutOut_facts (ecall termination is idempotent per node and changes no fact), liveNode_stable (an unchanged liveness update is a fixed point). Stability of the whole pipeline is checked on the real code: arbitrary extra runs of the value pass / ecall termination / liveness after the standard pipeline must leave value maps, live sets, edges and diagnostics identical. Termination bounds are NOT proved (see known finding F-12).", "5 C12",
